@@ -1,13 +1,51 @@
 """C14 — retention removes only data that has expired (work in progress)."""
+import os, re
 import checklib
+
+# Background tick periods that have nothing to do with retention are lengthened (overlay copies generated
+# from the CURRENT tree, one literal each): every virtual hour the harness sleeps through would otherwise
+# fire 36 000 shard snapshot ticks and 3 600 ticks of every mergeset flusher / merger per open shard.
+REWRITES = [
+    ("engine/shard.go", r"timer := time\.NewTicker\(time\.Millisecond \* 100\)",
+     "timer := time.NewTicker(time.Minute * 20)"),
+    ("lib/util/lifted/vm/mergeset/table.go", r"rawItemsFlushInterval\s+= time\.Second",
+     "rawItemsFlushInterval          = 20 * time.Minute"),
+    ("lib/util/lifted/vm/mergeset/table.go", r"maxMergeSleepTime = time\.Second",
+     "maxMergeSleepTime = 20 * time.Minute"),
+]
+
+
+def overlay_extra(cid, tier):
+    bd = os.path.join(checklib.build_dir(cid), "rewritten")
+    os.makedirs(bd, exist_ok=True)
+    texts = {}
+    for rel, pat, repl in REWRITES:
+        src = os.path.join(checklib.REPO, rel)
+        s = texts.get(rel)
+        if s is None:
+            s = open(src).read()
+        s2, n = re.subn(pat, repl, s)
+        if n != 1:
+            checklib.tool_error("C14 constant rewrite: pattern %r matched %d times in %s" % (pat, n, rel))
+        texts[rel] = s2
+    out = {}
+    for rel, s in texts.items():
+        dst = os.path.join(bd, rel.replace("/", "__"))
+        with open(dst, "w") as fh:
+            fh.write(s)
+        out[os.path.join(checklib.REPO, rel)] = dst
+    return out
+
 
 SPEC = dict(
     pkg="engine",
-    hooks=["engine", "services/retention"],
+    hooks=["engine", "services/retention", "lib/fileops"],
     test="TestVerifC14",
+    overlay_extra=overlay_extra,
     level="model_checking",
     workers=16,
     deadline={"quick": 150, "thorough": 1500},
+    env={"GOMAXPROCS": "2"},
     rule="wip",
     assumptions=[],
 )
